@@ -77,6 +77,7 @@ class HookMonitor(object):
         self.cur = None
         self.calls = []
         self.events = 0
+        self.outstanding = []     # every CallRecord ever handed out and not yet released
         if self._listener not in verif_hooks.listeners:
             verif_hooks.listeners.append(self._listener)
 
@@ -85,6 +86,16 @@ class HookMonitor(object):
             self.hooks.listeners.remove(self._listener)
         except ValueError:
             pass
+
+    def release_all(self):
+        """deterministically drop every solver clone / matched node still held by earlier events
+        (pyboolector nodes must never be reclaimed by the cycle collector)"""
+        for rec in self.outstanding:
+            try:
+                rec.release()
+            except Exception:
+                pass
+        self.outstanding = []
 
     def start_call(self):
         self.calls = []
@@ -113,6 +124,7 @@ class HookMonitor(object):
                     pass
             self.cur = rec
             self.calls.append(rec)
+            self.outstanding.append(rec)
         elif event == "batch_built":
             rec = self.cur
             if rec is None:
